@@ -19,6 +19,7 @@
   a delta of `e` while `got e < sent e`; data is available to a body replica at any time (no guard),
   which only adds behaviours.
 -/
+import NoirVerif.Model.SeqLoop
 namespace Noir.LoopProto
 
 inductive Phase where
@@ -114,6 +115,118 @@ inductive Step (L : Layout Host Head Body End) : St Host Head Body End → St Ho
 inductive Reachable (L : Layout Host Head Body End) : St Host Head Body End → Prop where
   | init : Reachable L init
   | step {s s'} : Reachable L s → Step L s s' → Reachable L s'
+
+/-! ## The data-carrying refinement
+
+`LoopProto` above is data-free. Here the same transitions additionally move the data of a `replay`
+loop: the per-host state cell holds a VALUE, a body replica records the value it reads when it lets
+the first element of a round pass, at its `FlushAndRestart` it has computed
+`foldl localFold delta0 (body stateRead part)` (its `IterationEnd` sends exactly that),
+the leader folds the deltas in arrival order, applies `loop_condition` and broadcasts the new value.
+`IterationEnd` replica `e` is chained to body replica `bodyOf e` (same block, iteration_end.rs);
+`part b` is the replica's share of the replayed input (the same in every round, `Replay` refeeds it).
+The loop is unbounded here (the leader always continues); termination is `leader_round` /
+`loop_seq`. Simplification: a body replica takes part in every round (it reads the state before its
+`FlushAndRestart`); a replica without data sends `delta0` whatever it would have read. -/
+
+structure DataCfg (Body End σ δ α : Type) where
+  loop : SeqLoop.Loop σ δ α
+  bodyOf : End → Body
+  part : Body → List α
+
+/-- the delta of body replica `b` when it evaluates the body against `S` -/
+def DataCfg.dval {Body End σ δ α : Type} (D : DataCfg Body End σ δ α) (b : Body) (S : σ) : δ :=
+  (D.loop.body S (D.part b)).foldl D.loop.localFold D.loop.delta0
+
+structure DSt (Host Head Body End σ δ : Type) where
+  base : St Host Head Body End
+  /-- the per-host state cell (`IterationStateRef`) -/
+  cell : Host → σ
+  /-- the value a body replica read when it let the round's first element pass -/
+  readSt : Body → σ
+  /-- the delta the replica's local fold produced at its last `FlushAndRestart` -/
+  dlast : Body → δ
+  /-- delta in flight from an `IterationEnd` replica to the leader -/
+  dq : End → Option δ
+  /-- the leader's `state` -/
+  lstate : σ
+  /-- ghost: the replicas whose delta the leader has folded in the running round, newest first -/
+  recvd : List End
+  /-- ghost: `hist j` = the value carried by broadcast number `j` (0: the initial state) -/
+  hist : Nat → σ
+
+section Data
+variable {σ δ α : Type}
+
+def dinit (D : DataCfg Body End σ δ α) : DSt Host Head Body End σ δ :=
+  { base := init, cell := fun _ => D.loop.init, readSt := fun _ => D.loop.init,
+    dlast := fun _ => D.loop.delta0, dq := fun _ => none, lstate := D.loop.init, recvd := [],
+    hist := fun _ => D.loop.init }
+
+/-- the transitions of `Step` with the data they move -/
+inductive DStep (L : Layout Host Head Body End) (D : DataCfg Body End σ δ α) :
+    DSt Host Head Body End σ δ → DSt Host Head Body End σ δ → Prop where
+  | headFar (s) (b') (r : Head) (h : s.base.phase r = .emitting)
+      (hb : b' = { s.base with round := upd s.base.round r (s.base.round r + 1), phase := upd s.base.phase r .waiting,
+                               locked := upd s.base.locked (L.hostOfHead r) true }) :
+      DStep L D s { s with base := b' }
+  /-- the state handle is read (`state.get()`): the host's cell -/
+  | bodyPass (s) (b') (b : Body) (h1 : s.base.passed b = false) (h2 : s.base.fars b ≤ s.base.syncs (L.hostOfBody b))
+      (hb : b' = { s.base with passed := upd s.base.passed b true }) :
+      DStep L D s { s with base := b', readSt := upd s.readSt b (s.cell (L.hostOfBody b)) }
+  /-- end of the replica's round: the local fold has reduced `body stateRead part` -/
+  | bodyFar (s) (b') (b : Body) (h : ∀ r, s.base.fars b < s.base.round r) (hp : s.base.passed b = true)
+      (hb : b' = { s.base with fars := upd s.base.fars b (s.base.fars b + 1), passed := upd s.base.passed b false }) :
+      DStep L D s { s with base := b', dlast := upd s.dlast b (D.dval b (s.readSt b)) }
+  | endSend (s) (b') (e : End) (h : ∀ b, s.base.sent e < s.base.fars b)
+      (hb : b' = { s.base with sent := upd s.base.sent e (s.base.sent e + 1) }) :
+      DStep L D s { s with base := b', dq := upd s.dq e (some (s.dlast (D.bodyOf e))) }
+  /-- `global_fold(state, delta)` in arrival order -/
+  | leaderRecv (s) (b') (e : End) (d : δ) (h1 : s.base.got e < s.base.sent e) (h2 : s.base.received < L.ends.length)
+      (hd : s.dq e = some d)
+      (hb : b' = { s.base with got := upd s.base.got e (s.base.got e + 1), received := s.base.received + 1 }) :
+      DStep L D s { s with base := b', dq := upd s.dq e none, lstate := D.loop.global s.lstate d,
+                           recvd := e :: s.recvd }
+  /-- `loop_condition(&mut state)`, broadcast of the new state -/
+  | leaderBroadcast (s) (b') (h : s.base.received = L.ends.length)
+      (hb : b' = { s.base with K := s.base.K + 1, received := 0 }) :
+      DStep L D s { s with base := b', lstate := (D.loop.cond s.lstate).2, recvd := [],
+                           hist := upd s.hist (s.base.K + 1) (D.loop.cond s.lstate).2 }
+  /-- the local leader writes the received value into the cell -/
+  | headRecv (s) (b') (r : Head) (h1 : s.base.phase r = .waiting) (h2 : s.base.fb r < s.base.K)
+      (hb : b' = { s.base with fb := upd s.base.fb r (s.base.fb r + 1), phase := upd s.base.phase r Phase.atBarrier,
+                               sidx := (if r = L.leaderOf (L.hostOfHead r)
+                                then upd s.base.sidx (L.hostOfHead r) (s.base.fb r + 1) else s.base.sidx) }) :
+      DStep L D s { s with base := b',
+                           cell := if r = L.leaderOf (L.hostOfHead r)
+                                   then upd s.cell (L.hostOfHead r) (s.hist (s.base.fb r + 1)) else s.cell }
+  | barrier (s) (b') (h : Host) (hall : ∀ r, L.hostOfHead r = h → s.base.phase r = .atBarrier)
+      (hb : b' = { s.base with phase := fun r => if L.hostOfHead r = h then .released else s.base.phase r,
+                               bar := upd s.base.bar h (s.base.bar h + 1) }) :
+      DStep L D s { s with base := b' }
+  | resume (s) (b') (r : Head) (h : s.base.phase r = .released)
+      (hb : b' = { s.base with phase := upd s.base.phase r .emitting,
+                               syncs := (if r = L.leaderOf (L.hostOfHead r)
+                                 then upd s.base.syncs (L.hostOfHead r) (s.base.syncs (L.hostOfHead r) + 1) else s.base.syncs),
+                               locked := (if r = L.leaderOf (L.hostOfHead r)
+                                  then upd s.base.locked (L.hostOfHead r) false else s.base.locked) }) :
+      DStep L D s { s with base := b' }
+
+inductive DReachable (L : Layout Host Head Body End) (D : DataCfg Body End σ δ α) :
+    DSt Host Head Body End σ δ → Prop where
+  | init : DReachable L D (dinit D)
+  | step {s s'} : DReachable L D s → DStep L D s s' → DReachable L D s'
+
+/-- the sequential states: `seqS 0` = initial state, `seqS (k+1)` = `loop_condition` applied to the
+    global fold of the replicas' local folds of the body evaluated against `seqS k`
+    (`SeqLoop.foldRound`, the parts being the replicas' shares in the order `L.ends`) -/
+def seqS (L : Layout Host Head Body End) (D : DataCfg Body End σ δ α) : Nat → σ
+  | 0 => D.loop.init
+  | k + 1 =>
+    (D.loop.cond (SeqLoop.foldRound D.loop (seqS L D k)
+      (L.ends.map fun e => D.loop.body (seqS L D k) (D.part (D.bodyOf e))))).2
+
+end Data
 
 /-! ## Nested loops: a small executable two-level instance (F9)
 
